@@ -273,6 +273,18 @@ def extended_scenarios():
         if not polled or not polled <= defined:
             failures.append({"internal": True, "what": "the kept extended-operation rpc polls through a method the operation service's client does not define",
                              "polled": sorted(polled), "defined_polling_candidates": sorted(d for d in defined if "get" in d)})
+        # nothing is omitted and every unlisted rpc is internal - the polling rpc is unlisted here
+        cases += 1
+        marks = {f"{s_.name}.{m.name}": (m.is_internal, m.client_method_name) for s_ in api.services.values() for m in s_.methods.values()}
+        wrong = {k: v for k, v in marks.items() if (k == "Networks.Insert") == (v[0] or v[1].startswith("_"))}
+        if wrong or "_get" not in defined or "get" in defined:
+            failures.append({"internal": True, "what": "an unlisted rpc (the operation polling rpc included) is not marked internal / a listed one is",
+                             "wrong": wrong, "all": marks, "operations_client_defines": sorted(d for d in defined if "get" in d)})
+        names = {s_.name: (s_.client_name, s_.async_client_name) for s_ in api.services.values()}
+        for sn, (cn, an) in names.items():
+            all_internal = any(m.is_internal for m in api.services[next(k for k, v in api.services.items() if v.name == sn)].methods.values())
+            if cn.startswith("Base") != all_internal or an.startswith("Base") != all_internal:
+                failures.append({"internal": True, "what": "client class prefix `Base` iff the service has an unlisted (internal) rpc", "service": sn, "client": cn, "async_client": an, "has_internal": all_internal})
     except Exception as e:     # noqa
         failures.append({"internal": True, "what": "generation failed", "error": repr(e)[:300]})
     return {"cases": cases, "failures": failures}
@@ -285,16 +297,27 @@ def subpackage_selective():
     failures, cases = [], 0
 
     def fs():
-        root = G.new_file("acme/sel/v1/common.proto", "acme.sel.v1")
+        kinds = G.new_file("acme/sel/v1/kinds/kinds.proto", "acme.sel.v1.kinds")
+        bar = G.add_message(kinds, "Bar", [G.F("inner", 1, T.TYPE_MESSAGE, type_name=".acme.sel.v1.kinds.Bar.Inner"),
+                                           G.F("qux", 2, T.TYPE_MESSAGE, type_name=".acme.sel.v1.kinds.Qux"),
+                                           G.F("kind", 3, T.TYPE_ENUM, type_name=".acme.sel.v1.kinds.Kind")])
+        G.add_message(bar, "Inner", [G.F("deep", 1, T.TYPE_MESSAGE, type_name=".acme.sel.v1.kinds.Deep")])
+        G.add_message(kinds, "Qux", [G.F("q", 1, T.TYPE_STRING)])
+        G.add_message(kinds, "Deep", [G.F("d", 1, T.TYPE_STRING)])
+        G.add_message(kinds, "Unreached", [G.F("u", 1, T.TYPE_STRING)])
+        k = kinds.enum_type.add(name="Kind")
+        k.value.add(name="KIND_UNSPECIFIED", number=0)
+        root = G.new_file("acme/sel/v1/common.proto", "acme.sel.v1", deps=G.STD_DEPS + ["acme/sel/v1/kinds/kinds.proto"])
         G.add_message(root, "Req", [G.F("name", 1, T.TYPE_STRING)])
-        G.add_message(root, "Record", [G.F("x", 1, T.TYPE_STRING)])
+        G.add_message(root, "Record", [G.F("x", 1, T.TYPE_STRING), G.F("bar", 2, T.TYPE_MESSAGE, type_name=".acme.sel.v1.kinds.Bar")])
         G.add_message(root, "Unused", [G.F("y", 1, T.TYPE_STRING)])
         sub = G.new_file("acme/sel/v1/archive/archive.proto", "acme.sel.v1.archive", deps=G.STD_DEPS + ["acme/sel/v1/common.proto"])
         G.add_message(sub, "ListReq", [G.F("parent", 1, T.TYPE_STRING)])
         sv = G.add_service(sub, "Archive")
         G.add_method(sv, "GetRecord", ".acme.sel.v1.Req", ".acme.sel.v1.Record", http=("get", "/v1/{name=r/*}"))
         G.add_method(sv, "ListRecords", ".acme.sel.v1.archive.ListReq", ".acme.sel.v1.Record", http=("get", "/v1/{parent=p/*}/records"))
-        return [root, sub]
+        return [kinds, root, sub]
+    reach = {"acme.sel.v1.kinds." + n for n in ("Bar", "Bar.Inner", "Qux", "Deep", "Kind")}
     for internal in (False, True):
         cases += 1
         yaml = {"type": "google.api.Service", "config_version": 3, "name": "sel.example.com", "publishing": {"library_settings": [
@@ -313,4 +336,8 @@ def subpackage_selective():
             names = _names(api)
             if set(ms) != {"GetRecord"} or "acme.sel.v1.Unused" in names or "acme.sel.v1.archive.ListReq" in names or "acme.sel.v1.Record" not in names:
                 failures.append({"internal": False, "what": "kept rpcs / types for a listed rpc of a sub-package service", "rpcs": sorted(ms), "types": sorted(names)})
+            cases += 1
+            if not reach <= names or "acme.sel.v1.kinds.Unreached" in names:
+                failures.append({"internal": False, "what": "types reachable only through a message of a types sub-package (fields, nested types, enums) are kept, unreachable ones dropped",
+                                 "missing": sorted(reach - names), "unreached_kept": "acme.sel.v1.kinds.Unreached" in names})
     return {"cases": cases, "failures": failures}
